@@ -29,6 +29,9 @@ theorem pin_tagLen : Generated.C19.chachapoly1305Expansion = TAG_LEN := by decid
 theorem pin_ignoreBit : (2 : Int) ^ Generated.C19.ignoreBitPos.toNat = IGNORE_BIT := by decide
 theorem pin_transportVersionLen : Generated.C19.transportVersionLen = 0 := by decide
 
+theorem pin_v1Prefix :
+    Generated.C19.v1PrefixMainnet = (v1Prefix 0xd9b4bef9).map (fun b => (b.toNat : Int)) := by decide
+
 /-- the model's constants are the protocol constants -/
 theorem model_constants :
     scanIterations = MAX_GARBAGE_LEN + 1 ∧ header true = UInt8.ofNat IGNORE_BIT ∧ header false = 0 ∧
